@@ -1,0 +1,8 @@
+// +build !verif
+
+// Package verifhook provides named yield points for the runtime-monitoring
+// harness. With the "verif" build tag off, Point is an empty function.
+package verifhook
+
+// Point is a named yield point (no-op in regular builds).
+func Point(name string) {}
